@@ -102,15 +102,19 @@ func run(rec *Rec, adds []add, closeDelta uint32, div TF) {
 	p := hx.Catch(func() {
 		s = smf.New()
 		setTF(s, div)
+		// the source track is written down as a value of the exported type (Track is []Event), so that it is exactly the
+		// intended one whatever Track.Add / Track.Close do (their behaviour is C01's subject, the conversion is C16's)
 		var tr smf.Track
 		for _, a := range adds {
-			ms := make([][]byte, len(a.msgs))
 			for i, m := range a.msgs {
-				ms[i] = append([]byte{}, m...)
+				d := a.d
+				if i > 0 {
+					d = 0
+				}
+				tr = append(tr, smf.Event{Delta: d, Message: append([]byte{}, m...)})
 			}
-			tr.Add(a.d, ms...)
 		}
-		tr.Close(closeDelta)
+		tr = append(tr, smf.Event{Delta: closeDelta, Message: append([]byte{}, smf.EOT...)})
 		s.Add(tr)
 	})
 	if p != "" {
